@@ -24,12 +24,17 @@ def record(drv, wd, mode, tag, thorough):
 
 def validate(chk, tpath, what):
     events = vp.read_ndjson(tpath)
-    r = vp.tlc(os.path.join(vp.SPEC, "Trace_Mem.tla"), os.path.join(vp.SPEC, "Trace_Mem.cfg"),
+    cfg = os.path.join(os.path.dirname(tpath), "Trace_Mem_%s.cfg" % what.replace("/", "_"))
+    with open(cfg, "w") as f:
+        f.write("SPECIFICATION Spec\nCONSTANT OpenFindings = {%s}\n" % ", ".join('"%s"' % k for k in sorted(chk.open)))
+    r = vp.tlc(os.path.join(vp.SPEC, "Trace_Mem.tla"), cfg,
                name="Trace_Mem_" + what, workers=1, timeout=1100, env={"TRACE": tpath}, xmx="10g")
     res = r.printed("RESULT")
     if len(res) != 1 or res[0]["n"] != len(events):
         raise vp.Broken("trace validation did not complete (%s): %s" % (what, r.out[-1500:]))
     chk.add_tlc("Trace_Mem on " + what, r, "constant-level evaluation of the Contract on %d recorded events" % len(events))
+    for k in res[0].get("known", []):
+        chk.known(k["id"])
     return events, [(b, events[b - 1]) for b in res[0]["bad"]]
 
 
